@@ -824,6 +824,32 @@ fn main() {
             sp.done(true, "bound 1: all operators x all nodes of the TBS of 3 (thorough: 5) seed certificates x 2 decode modes");
         }
 
+        if ctx.tier.is_thorough() {
+            let sp = ctx.space("resigned.tbs_pairs",
+                "thorough only: every pair of deviations (reduced operator menu, one representative per operator class) at two different, non-nested TLV nodes inside the extensions of the sub-CA and the EE seed certificate, re-signed, decoded strict and relaxed, validated; oracle: the reference reader as in resigned.tbs_deviations; non-trivial = every pair");
+            for (sname, kind) in [("ca", Kind::Ca), ("ee", Kind::Ee)] {
+                let cert = seed_of(kind, Overclaim::Refuse);
+                let tbs = tbs_of(&cert);
+                let tree = mutate::Tree::parse(&tbs).expect("TBS parses");
+                // nodes below the [3] extensions wrapper
+                let ext_root = (0..tree.len()).find(|&i| tree.nodes[i].tag == 0xa3).expect("extensions present");
+                let ext_end = ext_root + tree.nodes[ext_root].size;
+                let singles: Vec<(usize, mutate::Op)> = (ext_root + 2..ext_end).flat_map(|i| tree.reduced_menu(i).into_iter().map(move |op| (i, op))).collect();
+                let n = singles.len();
+                (0..n).into_par_iter().for_each(|a| {
+                    let (i, oi) = singles[a];
+                    for &(j, oj) in &singles[a + 1..] {
+                        if j < i + tree.nodes[i].size { continue } // same node or nested
+                        let m = match guard(|| tree.apply(&tbs, &[(i, oi), (j, oj)])) { Ok(m) => m, Err(e) => { ctx.machinery_error(format!("mutate pair: {e}")); continue } };
+                        sp.nontrivial(1);
+                        run(&sp, "C01.resigned", kind, &m, false, &|strict| format!("seed={sname} strict={strict} node={i} op={} node2={j} op2={}", oi.name(&tree).replace(' ', "_"), oj.name(&tree).replace(' ', "_")));
+                    }
+                });
+                sp.sample_str(|| format!("seed={sname}: {} single deviations inside the extensions", n));
+            }
+            sp.done(true, "bound 2: all pairs over the reduced menu at non-nested nodes of the extensions of 2 seed certificates x 2 decode modes");
+        }
+
         {
             use rpki_verif::engine::{certref as cr, der};
             let sp = ctx.space("resigned.resource_shapes",
